@@ -1,6 +1,7 @@
 package harness
 
 import (
+	"sync/atomic"
 	"bytes"
 	"crypto/ecdsa"
 	"crypto/elliptic"
@@ -60,8 +61,21 @@ func testCert() tls.Certificate {
 	return serverCert
 }
 
+// the three legal ways for a server-side tls.Config to supply its certificate, in rotation (the behaviour of
+// the server under test must not depend on the shape of the configuration)
+var tlsConfigCounter int32
+
 func serverTLSConfig() *tls.Config {
-	return &tls.Config{Certificates: []tls.Certificate{testCert()}}
+	cert := testCert()
+	switch atomic.AddInt32(&tlsConfigCounter, 1) % 3 {
+	case 1:
+		return &tls.Config{GetCertificate: func(*tls.ClientHelloInfo) (*tls.Certificate, error) { return &cert, nil }}
+	case 2:
+		return &tls.Config{GetConfigForClient: func(*tls.ClientHelloInfo) (*tls.Config, error) {
+			return &tls.Config{Certificates: []tls.Certificate{cert}}, nil
+		}}
+	}
+	return &tls.Config{Certificates: []tls.Certificate{cert}}
 }
 
 type PhasedConn struct {
